@@ -390,6 +390,58 @@ def r_link(P, chk):
                     chk.violation(rid, "link:%s:%s->mate=%s" % (f.name, b, r), f.where(x),
                                   "%s sets %s->mate = %s without the reverse link" % (f.name, b, r))
     chk.floor(rid, n, 15, "next / mate stores")
+    # tail: only ever stored on a chain head (or on a node for itself)
+    nt = 0
+    for f in P.all_funcs:
+        if not P.first_party(f) or f.unit.base in compdb.GENERATED_UNITS:
+            continue
+        for x in f.walk():
+            if x["k"] != "BinaryOperator" or x["op"] != "=":
+                continue
+            l = strip(x["c"][0])
+            if l is None or l["k"] != "MemberExpr" or l.get("rec") != "token" or l["n"] != "tail":
+                continue
+            nt += 1
+            tgt = strip(l["c"][0])
+            tk = key(tgt)
+            why = None
+            if key(x["c"][1]) == tk:
+                why = "a node's own tail"
+            elif tgt["k"] == "MemberExpr" and tgt["n"] == "child":
+                why = "first child = chain head"
+            elif tgt["k"] == "DeclRefExpr" and tgt.get("dk") == "Parm":
+                why = "parameter (head by the primitive's contract)"
+            elif tgt["k"] == "DeclRefExpr" and tgt.get("dk") == "Var":
+                # fresh node, first child, or the result of a walk to the head (while (v->prev) v = v->prev)
+                for y in f.walk():
+                    src = None
+                    if y["k"] == "VarDecl" and y["n"] == tk and y.get("c") and y["c"][0] is not None:
+                        src = strip(y["c"][0])
+                    elif y["k"] == "BinaryOperator" and y["op"] == "=" and key(y["c"][0]) == tk:
+                        src = strip(y["c"][1])
+                    if src is None:
+                        continue
+                    if src["k"] == "CallExpr" and ((src.get("callee") or "").startswith("token_new") or src.get("callee") == "token_copy"):
+                        why = "fresh node"
+                    elif src["k"] == "MemberExpr" and src["n"] == "child":
+                        why = "first child = chain head"
+                # the node's own prev link is cut in this function: it is a head now
+                for y in f.walk():
+                    if y["k"] == "BinaryOperator" and y["op"] == "=" and key(y["c"][0]) == tk + "->prev" and const_value(y["c"][1]) == 0 \
+                            and y["l"] <= x["l"]:
+                        why = why or "its prev link was cut just before (head of the new chain)"
+                for w in f.walk():
+                    if w["k"] == "WhileStmt" and key(w["c"][0]) == tk + "->prev" and any(
+                            z["k"] == "BinaryOperator" and z["op"] == "=" and key(z["c"][0]) == tk and key(z["c"][1]) == tk + "->prev"
+                            for z in walk(w["c"][1])) and w["l"] < x["l"]:
+                        why = "reached by walking prev links to the head"
+            chk.obligation(rid, "%s %s: %s->tail is stored on a chain head (%s)" % (f.where(x), f.name, tk, why), why is not None, sample=False)
+            if why is None:
+                chk.violation(rid, "link:tail:%s:%s" % (f.name, tk), f.where(x), "%s stores the tail pointer on `%s`, which is not "
+                              "known to be the head of its chain (first child, a primitive's head parameter, a fresh node, or the end "
+                              "of a walk over prev links): the real head keeps a stale tail, so appends and back-to-front walks start "
+                              "at the wrong token" % (f.name, tk))
+    chk.floor(rid, nt, 15, "tail stores")
 
 
 # ---------------------------------------------------------------------------
@@ -474,3 +526,64 @@ def r_byteclass(P, chk):
         if not ok:
             chk.violation(rid, "byteclass:label:tolower", lf.where(c), "label_from_string applies tolower() to a byte that is not "
                           "range-checked as ASCII (range %s)" % (iv,))
+
+
+# ---------------------------------------------------------------------------
+# R-SPAN/split (C15): pieces produced by the split primitives tile the original span
+
+def _linear(f, n, depth=0):
+    """Linear form {atom key: coef, 1: const} of an integer expression, substituting locals that are
+    initialised once and never reassigned.  None if not linear."""
+    s = strip(n)
+    if s is None:
+        return None
+    cv = const_value(s)
+    if cv is not None:
+        return {1: cv}
+    k = s["k"]
+    if k == "BinaryOperator" and s["op"] in ("+", "-"):
+        a, b = _linear(f, s["c"][0], depth), _linear(f, s["c"][1], depth)
+        if a is None or b is None:
+            return None
+        out = dict(a)
+        for kk, v in b.items():
+            out[kk] = out.get(kk, 0) + (v if s["op"] == "+" else -v)
+        return {kk: v for kk, v in out.items() if v != 0 or kk == 1}
+    if k == "DeclRefExpr" and s.get("dk") == "Var" and depth < 4:
+        inits = [x for x in f.walk() if x["k"] == "VarDecl" and x.get("did") == s.get("did") and x.get("c") and x["c"][0] is not None]
+        assigns = [x for x in f.walk() if (x["k"] == "BinaryOperator" and x["op"] == "=" or x["k"] == "CompoundAssignOperator"
+                                          or (x["k"] == "UnaryOperator" and x["op"] in ("post++", "pre++", "post--", "pre--")))
+                   and (strip(x["c"][0]) or {}).get("did") == s.get("did")]
+        if len(inits) == 1 and not assigns:
+            return _linear(f, inits[0]["c"][0], depth + 1)
+    return {key(s): 1}
+
+
+def r_span_split(P, chk):
+    rid = "R-SPAN/split"
+    chk.rule(rid, "the continuation piece created by a token split ends exactly where the original token ended "
+                  "(start + len of the new token == start + len of the split token, by linear arithmetic)")
+    n = 0
+    for fn in ("token_split_on_char", "token_split"):
+        f = P.func(fn, "token.c")
+        tok = f.params[0][0]
+        for c in f.calls("token_new"):
+            if key(c["c"][1]) != tok + "->type":
+                continue
+            n += 1
+            a = _linear(f, c["c"][2])
+            b = _linear(f, c["c"][3])
+            ok = False
+            if a is not None and b is not None:
+                tot = dict(a)
+                for kk, v in b.items():
+                    tot[kk] = tot.get(kk, 0) + v
+                tot = {kk: v for kk, v in tot.items() if v != 0}
+                ok = tot == {tok + "->start": 1, tok + "->len": 1}
+            chk.obligation(rid, "%s %s: token_new(%s, %s, %s) ends at %s->start + %s->len" % (
+                f.where(c), fn, key(c["c"][1]), key(c["c"][2]), key(c["c"][3]), tok, tok), ok)
+            if not ok:
+                chk.violation(rid, "span:split:%s" % fn, f.where(c), "%s creates the remainder token with start `%s` and length `%s`, whose "
+                              "end is not the end of the token being split: the piece overlaps its successor or runs past the source" % (
+                                  fn, f.src(c["c"][2]), f.src(c["c"][3])))
+    chk.floor(rid, n, 3, "remainder tokens created by the split primitives")
